@@ -155,7 +155,7 @@ def run(tier):
     b = vlib.build_property("C11")
     okx, xlog = vlib.build_extraction("preserve")
     n = 64 if tier == "quick" else 1600
-    jobs = compiles.plan(FAMS, n, vlib.seed(), tag="c11", capture=False)
+    jobs = compiles.corpus_jobs(capture=False) + compiles.plan(FAMS, n, vlib.seed(), tag="c11", capture=False)
     import netgen
     import random
     rk = random.Random("c11kinds/%d" % vlib.seed())
@@ -185,7 +185,10 @@ def run(tier):
         if not art:
             continue
         import os
-        src = tflsum.summarise(os.path.join(r["job"]["out_dir"], "model.tflite"))
+        src_path = os.path.join(r["job"]["out_dir"], "model.tflite")
+        if not os.path.exists(src_path):
+            src_path = r["job"].get("tflite")          # corpus networks are compiled from their own file
+        src = tflsum.summarise(src_path)
         out = art["summary"]
         # the written file parses back with Vela's own reader
         try:
